@@ -10,7 +10,7 @@ import (
 func init() { register("C34", c34) }
 
 func c34(p *an.Prog, r *an.R, tier string) {
-	r.Explanation = "C34 (structural clause): validation precedes mutation. In runSync the discovery of repositories (which reports duplicate names and duplicate sources as an error) and the reading of the inventory run, and their errors are tested, on every path before the calls that can remove or write shards (applyRemovals, indexRepositories); in removeRepositories the selection of records (ambiguous / not found errors) precedes applyRemovals the same way. Does NOT decide convergence (exactly one up-to-date repository per discovered repository and nothing else)."
+	r.Explanation = "C34 (structural clause): validation precedes mutation. In runSync the discovery of repositories (which reports duplicate names and duplicate sources as an error) and the reading of the inventory run, and their errors are tested, on every path before the calls that can remove or write shards (applyRemovals, indexRepositories); in removeRepositories the selection of records (ambiguous / not found errors) precedes applyRemovals the same way. (R2) in runSync the prune plan is applied before indexing rewrites shard files (also when deferred). Does NOT decide convergence (exactly one up-to-date repository per discovered repository and nothing else)."
 	r.Rule("C34.R1", "every path to applyRemovals/indexRepositories passes the validation call, and the validation's error is tested (== nil edge) before them")
 	r.Rule("C34.R2", "runSync: applyRemovals is not reachable from indexRepositories without the inventory being read and the prune plan being computed again (the plan identifies shards by file path; indexing writes files of the same names)")
 	for _, spec := range []struct {
